@@ -43,3 +43,23 @@ Qed.
 
 Theorem pp_out_in_appendix_b : forall w, regex.lang pp_out_r w -> regex.lang pep440_spec w.
 Proof. exact (lang_incl _ _ pp_out_ka). Qed.
+
+(* ---- the BNF language in a shape convenient for inversion, over the regenerated classes; inclusion decided by ka on every run ---- *)
+Definition idc_r : regex' := r_pls semver_cls_alnum semver_cls_dash.
+Definition nd_r : regex' := r_pls semver_cls_alpha semver_cls_dash.
+Definition preid_r : regex' := r_pls sv_num_r (r_dot (r_str idc_r) (r_dot nd_r (r_str idc_r))).
+Definition buildid_r : regex' := r_dot idc_r (r_str idc_r).
+Definition pre_r : regex' := r_dot preid_r (r_str (r_dot semver_cls_dot preid_r)).
+Definition build_r : regex' := r_dot buildid_r (r_str (r_dot semver_cls_dot buildid_r)).
+Definition sv_in_r : regex' :=
+  r_dot (r_pls r_one semver_cls_vee)
+  (r_dot sv_num_r (r_dot semver_cls_dot (r_dot sv_num_r (r_dot semver_cls_dot (r_dot sv_num_r
+    (r_dot (r_pls r_one (r_dot semver_cls_dash pre_r)) (r_pls r_one (r_dot semver_cls_plus build_r)))))))).
+
+Lemma sv_in_ka : (semver_spec : regex') ≦ sv_in_r.
+Proof.
+  unfold sv_in_r, build_r, pre_r, buildid_r, preid_r, nd_r, idc_r, sv_num_r, semver_cls_zero, semver_cls_posdigit, semver_cls_digit, semver_cls_alpha, semver_cls_alnum,
+         semver_cls_dot, semver_cls_dash, semver_cls_plus, semver_cls_vee, semver_spec.
+  ka.
+Qed.
+
